@@ -60,7 +60,7 @@ func (e *env) close() {
 const upUser, upPass = "upuser", "up:pa ss%"
 
 func okResponder(w *rig.PeerConn, ex *rig.Exchange) bool {
-	body := "ok:" + ex.Req.Get("X-Case-Id")
+	body := "ok:" + ex.Req.Get("Case-Id")
 	b := rig.Head("HTTP/1.1 200 OK", []rig.Field{{Name: "Content-Length", Value: fmt.Sprint(len(body))}})
 	if ex.Req.Method != "HEAD" {
 		b = append(b, body...)
@@ -159,7 +159,7 @@ func (e *env) hopPeers() []*rig.Peer { return []*rig.Peer{e.origin, e.tlsOrig, e
 func (e *env) findExchange(id string) (*rig.Peer, *rig.Exchange) {
 	for _, p := range e.hopPeers() {
 		for _, ex := range p.Log() {
-			if ex.Req != nil && ex.Req.Get("X-Case-Id") == id {
+			if ex.Req != nil && ex.Req.Get("Case-Id") == id {
 				return p, ex
 			}
 		}
@@ -197,7 +197,7 @@ func (e *env) learnTag() (string, error) {
 		return "", err
 	}
 	defer c.Close()
-	c.Send([]byte("GET /probe HTTP/1.1\r\nHost: origin.test\r\nX-Case-Id: probe\r\nConnection: close\r\n\r\n"), nil)
+	c.Send([]byte("GET /probe HTTP/1.1\r\nHost: origin.test\r\nCase-Id: probe\r\nConnection: close\r\n\r\n"), nil)
 	if _, err := c.ReadResponse("GET", 5*time.Second); err != nil {
 		return "", fmt.Errorf("probe: %w", err)
 	}
@@ -495,8 +495,7 @@ func specViolations(cfg *reqmodel.Cfg, x *reqmodel.Ctx, r *reqmodel.Request, obs
 		}
 		switch k {
 		case "connection":
-			ok := len(vout) == 1 && (strings.EqualFold(vout[0], "close") || (upgradeRequested && vout[0] == "Upgrade"))
-			if !ok {
+			if !connectionOK(vout, upgradeRequested) {
 				add("hop-by-hop fields are removed", "", fmt.Sprintf("connection: %q", vout))
 			}
 		case "transfer-encoding", "trailer":
@@ -525,7 +524,7 @@ func specViolations(cfg *reqmodel.Cfg, x *reqmodel.Ctx, r *reqmodel.Request, obs
 			continue
 		}
 		switch {
-		case k == "connection" && len(got) == 1 && (strings.EqualFold(got[0], "close") || (upgradeRequested && got[0] == "Upgrade")):
+		case k == "connection" && connectionOK(got, upgradeRequested):
 		case k == "upgrade" && upgradeRequested && len(got) == 1 && got[0] == in["upgrade"][0]:
 		case k == "transfer-encoding" || k == "trailer":
 		case k == "proxy-authorization" && cfg.UpstreamAuth != nil && len(got) == 1 && got[0] == *cfg.UpstreamAuth:
@@ -581,8 +580,12 @@ func specViolations(cfg *reqmodel.Cfg, x *reqmodel.Ctx, r *reqmodel.Request, obs
 	}
 	if !ruleTouched("accept-encoding") {
 		if vin, ok := in["accept-encoding"]; ok && !nominated["accept-encoding"] {
-			if got := out["accept-encoding"]; strings.Join(got, "\x00") != strings.Join(vin, "\x00") {
-				add("Accept-Encoding is only added when the client sent none", "", fmt.Sprintf("%q vs %q", got, vin))
+			if got := out["accept-encoding"]; strings.Join(got, "\x00") != strings.Join(vin, "\x00") || len(got) != len(vin) {
+				class := ""
+				if vin[0] == "" {
+					class = "empty-accept-encoding"
+				}
+				add("Accept-Encoding is only added when the client sent none", class, fmt.Sprintf("%q vs %q", got, vin))
 			}
 		} else if got := out["accept-encoding"]; len(got) > 0 && !(len(got) == 1 && got[0] == "gzip") {
 			add("Accept-Encoding is only added when the client sent none", "", fmt.Sprintf("%q", got))
@@ -631,4 +634,15 @@ func nonEmpty(vs []string) []string {
 		return nil
 	}
 	return vs
+}
+
+// connectionOK: the only Connection options the proxy may emit itself are its own "close" and, for a
+// requested upgrade, "Upgrade".
+func connectionOK(vs []string, upgradeRequested bool) bool {
+	for _, v := range vs {
+		if !(strings.EqualFold(v, "close") || (upgradeRequested && v == "Upgrade")) {
+			return false
+		}
+	}
+	return len(vs) > 0
 }
